@@ -501,6 +501,23 @@ def _rand_np(p):
 
 defop("random", 0, _g_random, _rand_np, _rand_da, "leaf random", w=0)
 
+defop(
+    "literal",
+    0,
+    lambda g, ins: need(False),
+    lambda p: np.array(p["data"], dtype=p["dtype"]).reshape(tuple(p["shape"])),
+    lambda p: da().from_array(np.array(p["data"], dtype=p["dtype"]).reshape(tuple(p["shape"])), chunks=tuple(tuple(c) for c in p["chunks"])),
+    "leaf",
+    w=0,
+)
+
+
+def literal_step(value, chunks):
+    """A leaf step holding `value` verbatim (used to re-run a program over a plain NumPy-backed copy of a leaf)."""
+    a = np.asarray(value)
+    return {"op": "literal", "in": [], "p": {"data": a.ravel().tolist(), "dtype": str(a.dtype), "shape": list(a.shape), "chunks": [list(map(int, c)) for c in chunks]}}
+
+
 LEAF_OPS = ["from_array"] * 8 + ["arange", "fill", "linspace", "eye"]
 
 # ---- elementwise -----------------------------------------------------------
